@@ -417,6 +417,191 @@ if not mb1 or not mb2 or mb1.group(1) != mb2.group(1) or mb2.group(2) != mb2.gro
     die("turbojpeg.c: tj3TransformBufSize ICC terms not understood")
 bufsize_per_marker, bufsize_chunk = int(mb1.group(1)), int(mb2.group(2))
 
+# default_decompress_parms (jdapimin.c): the colourspace decision as decision trees, statement by statement.
+#   dtree := DLeaf jcs | DIf cond then else | DSwitchAdobe [(value, tree)] default_tree
+#   cond  := conjunction of literals (negated?, atom); atoms: jfif, adobe, lossless, id k v
+jda = rd("jdapimin.c")
+ddp = func_body(jda, "default_decompress_parms", "jdapimin.c")
+ddp = re.sub(r"^\s*#\s*(ifdef|ifndef|endif|else|if)\b.*$", "", ddp, flags=re.M)      # D_LOSSLESS_SUPPORTED is on in this tree
+if "D_LOSSLESS_SUPPORTED" not in rd("jmorecfg.h"):
+    die("jmorecfg.h: D_LOSSLESS_SUPPORTED no longer defined")
+jcs_enum = re.search(r"typedef\s+enum\s*\{(.*?)\}\s*J_COLOR_SPACE\s*;", strip_comments(jpeglib), re.S)
+if not jcs_enum:
+    die("jpeglib.h: enum J_COLOR_SPACE not found")
+jcs_names = re.findall(r"\b(JCS_[A-Za-z0-9_]+)\b", jcs_enum.group(1))
+jcs_val = {n: i for i, n in enumerate(jcs_names)}
+for k in ("JCS_UNKNOWN", "JCS_GRAYSCALE", "JCS_RGB", "JCS_YCbCr", "JCS_CMYK", "JCS_YCCK"):
+    if k not in jcs_val:
+        die("jpeglib.h: %s missing" % k)
+_tok = re.findall(r"[A-Za-z_][A-Za-z0-9_]*(?:->[A-Za-z_][A-Za-z0-9_]*|\[\d+\]|\.[A-Za-z_][A-Za-z0-9_]*)*|\d+|==|&&|\|\||[-+*/!(){};:=,<>]", ddp)
+_pos = [0]
+_cid = {}
+
+
+def _peek():
+    return _tok[_pos[0]] if _pos[0] < len(_tok) else None
+
+
+def _next():
+    _pos[0] += 1
+    return _tok[_pos[0] - 1]
+
+
+def _expect(t):
+    if _next() != t:
+        die("jdapimin.c: default_decompress_parms: expected '%s' near token %d (%s)" % (t, _pos[0], " ".join(_tok[max(0, _pos[0] - 6):_pos[0] + 3])))
+
+
+def _cond():
+    """conjunction of literals up to the matching ')'"""
+    lits, depth, cur = [], 0, []
+    while True:
+        t = _next()
+        if t == "(":
+            depth += 1; continue
+        if t == ")":
+            if depth == 0:
+                break
+            depth -= 1; continue
+        if t == "||":
+            die("jdapimin.c: default_decompress_parms: disjunction in a condition is not understood")
+        if t == "&&":
+            lits.append(cur); cur = []
+        else:
+            cur.append(t)
+    lits.append(cur)
+    out = []
+    for l in lits:
+        neg = False
+        while l and l[0] == "!":
+            neg = not neg; l = l[1:]
+        s_ = " ".join(l)
+        if s_ == "cinfo->saw_JFIF_marker":
+            out.append((neg, "AJfif"))
+        elif s_ == "cinfo->saw_Adobe_marker":
+            out.append((neg, "AAdobe"))
+        elif s_ == "cinfo->master->lossless":
+            out.append((neg, "ALossless"))
+        elif len(l) == 3 and l[1] == "==" and l[0] in _cid and l[2].isdigit():
+            out.append((neg, "(AId %d %s)" % (_cid[l[0]], l[2])))
+        else:
+            die("jdapimin.c: default_decompress_parms: condition '%s' is not understood" % s_)
+    return out
+
+
+def _stmt():
+    """returns a tree or None (statement without effect on jpeg_color_space)"""
+    t = _peek()
+    if t == "{":
+        _next(); res = None
+        while _peek() != "}":
+            r = _stmt()
+            if r is not None:
+                if res is not None:
+                    die("jdapimin.c: default_decompress_parms: two colourspace decisions in one block")
+                res = r
+        _next()
+        return res
+    if t == "if":
+        _next(); _expect("(")
+        c = _cond()
+        th = _stmt()
+        el = None
+        if _peek() == "else":
+            _next(); el = _stmt()
+        if th is None and el is None:
+            return None
+        if th is None or el is None:
+            die("jdapimin.c: default_decompress_parms: an if decides the colourspace on one branch only")
+        return ("if", c, th, el)
+    if t == "switch":
+        _next(); _expect("(")
+        what = []
+        while _peek() != ")":
+            what.append(_next())
+        _next()
+        if " ".join(what) != "cinfo->Adobe_transform":
+            die("jdapimin.c: default_decompress_parms: switch on '%s' is not understood" % " ".join(what))
+        _expect("{")
+        cases, dflt = [], None
+        while _peek() != "}":
+            k = _next()
+            if k == "case":
+                v = _next(); _expect(":")
+            elif k == "default":
+                v = None; _expect(":")
+            else:
+                die("jdapimin.c: default_decompress_parms: unexpected token '%s' in the Adobe switch" % k)
+            res = None
+            while _peek() not in ("case", "default", "}"):
+                r = _stmt()
+                if r is not None:
+                    res = r
+            if res is None:
+                die("jdapimin.c: default_decompress_parms: Adobe switch case without a colourspace")
+            if v is None:
+                dflt = res
+            else:
+                cases.append((int(v), res))
+        _next()
+        if dflt is None:
+            die("jdapimin.c: default_decompress_parms: Adobe switch without default")
+        return ("adobe", cases, dflt)
+    # simple statement up to ';'
+    st = []
+    while _peek() != ";":
+        st.append(_next())
+    _next()
+    s_ = " ".join(st)
+    m_ = re.fullmatch(r"cinfo->jpeg_color_space = (JCS_\w+)", s_)
+    if m_:
+        return ("leaf", jcs_val[m_.group(1)])
+    m_ = re.fullmatch(r"int (cid\d) = cinfo->comp_info\[(\d)\]\.component_id", s_)
+    if m_:
+        _cid[m_.group(1)] = int(m_.group(2))
+    return None
+
+
+# find "switch (cinfo->num_components) {"
+try:
+    i0 = next(i for i in range(len(_tok) - 4) if _tok[i:i + 4] == ["switch", "(", "cinfo->num_components", ")"])
+except StopIteration:
+    die("jdapimin.c: default_decompress_parms: switch (cinfo->num_components) not found")
+_pos[0] = i0 + 4
+_expect("{")
+ddp_cases, ddp_default = {}, None
+while _peek() != "}":
+    k = _next()
+    if k == "case":
+        v = int(_next()); _expect(":")
+    elif k == "default":
+        v = None; _expect(":")
+    else:
+        die("jdapimin.c: default_decompress_parms: unexpected token '%s' in the component-count switch" % k)
+    res_ = None
+    while _peek() not in ("case", "default", "}"):
+        r_ = _stmt()
+        if r_ is not None:
+            if res_ is not None:
+                die("jdapimin.c: default_decompress_parms: two colourspace decisions for one component count")
+            res_ = r_
+    if res_ is None:
+        die("jdapimin.c: default_decompress_parms: a component count without colourspace decision")
+    if v is None:
+        ddp_default = res_
+    else:
+        ddp_cases[v] = res_
+if ddp_default is None:
+    die("jdapimin.c: default_decompress_parms: no default case")
+
+
+def coq_tree(t):
+    if t[0] == "leaf":
+        return "(DLeaf %d)" % t[1]
+    if t[0] == "if":
+        return "(DIf [%s] %s %s)" % ("; ".join("(%s, %s)" % ("true" if n else "false", a) for n, a in t[1]), coq_tree(t[2]), coq_tree(t[3]))
+    return "(DAdobe [%s] %s)" % ("; ".join("(%d, %s)" % (v, coq_tree(x)) for v, x in t[1]), coq_tree(t[2]))
+
 
 def zl(xs):
     return "[" + "; ".join(str(x) for x in xs) + "]"
@@ -458,6 +643,13 @@ P("Definition TJ_NUMSAMP : Z := %d.\nDefinition D_MAX_BLOCKS_IN_MCU : Z := %d." 
 P("Definition jpeg_natural_order : list Z := %s." % zl(natorder))
 P("Definition NUM_QUANT_TBLS : Z := %d.\nDefinition NUM_HUFF_TBLS : Z := %d.\nDefinition DCTSIZE2 : Z := %d.\nDefinition NUM_ARITH_TBLS : Z := %d." % (num_qt, num_ht, dctsize2, num_arith))
 P("Definition TJ_BUFSIZE_ICC_PER_MARKER : Z := %d.\nDefinition TJ_BUFSIZE_ICC_CHUNK : Z := %d." % (bufsize_per_marker, bufsize_chunk))
+P("(* jdapimin.c default_decompress_parms: the colourspace decision, in the order of the C text *)")
+P("Inductive datom := AJfif | AAdobe | ALossless | AId (k v : Z).")
+P("Inductive dtree := DLeaf (jcs : Z) | DIf (c : list (bool * datom)) (t e : dtree) | DAdobe (cases : list (Z * dtree)) (d : dtree).")
+for k in ("JCS_UNKNOWN", "JCS_GRAYSCALE", "JCS_RGB", "JCS_YCbCr", "JCS_CMYK", "JCS_YCCK"):
+    P("Definition %s : Z := %d." % (k, jcs_val[k]))
+P("Definition ddp_cases : list (Z * dtree) :=\n  [%s]." % ";\n   ".join("(%d, %s)" % (k, coq_tree(v)) for k, v in sorted(ddp_cases.items())))
+P("Definition ddp_default : dtree := %s." % coq_tree(ddp_default))
 for k, v in cstates.items():
     P("Definition %s : Z := %d." % (k, v))
 P("Definition DSTATE_READY : Z := %d." % dstate_ready)
